@@ -229,6 +229,8 @@ pub fn to_string(value: f64) -> String {
 }
 
 pub fn from_hex(s: &str) -> Option<f64> {
+    // like float.fromhex, surrounding whitespace is ignored
+    let s = s.trim_matches(|c: char| c.is_ascii_whitespace() || c == '\x0b');
     if let Ok(f) = hexf_parse::parse_hexf64(s, false) {
         return Some(f);
     }
